@@ -1,13 +1,17 @@
 #!/bin/sh
-# usage: tools/try_seeded.sh <PROPERTY-ID> <worktree-dir> [more property ids to try...]
-# Confirms an independently written breaking change and runs the targeted quick check(s) against the worktree's sources.
-pid=$1; wt=$2; shift 2
+# usage: tools/try_seeded.sh <dir-with-patch.diff-and-demo.py> <PROPERTY-ID> [more ids...]
+# Builds a scratch copy of /repo/src with the patch applied, confirms the demonstration (fails with, passes without) and runs
+# the targeted quick check(s) against the changed tree via PYGOM_SRC.  The scratch copy is removed afterwards.
+d=$(cd "$1" && pwd); shift
+S=$(mktemp -d /tmp/seeded.XXXXXX); trap 'rm -rf "$S"' EXIT
+mkdir -p $S/tree && cp -r /repo/src $S/tree/src && find $S/tree -name __pycache__ -prune -exec rm -rf {} +
+(cd $S/tree && git apply --whitespace=nowarn "$d/patch.diff") || { echo "PATCH DOES NOT APPLY"; exit 3; }
+mkdir -p $S/tmp
 echo "== demo with the change (expect non-zero)"
-(cd /tmp && T=$(mktemp -d) && TMPDIR=$T PYTHONPATH=$wt/src timeout 900 /venv/bin/python $wt/_seeded/demo.py >/tmp/demo_with.$$ 2>&1; echo "rc=$?"; rm -rf $T; tail -3 /tmp/demo_with.$$)
+(cd /tmp && TMPDIR=$S/tmp PYTHONPATH=$S/tree/src timeout 1200 /venv/bin/python "$d/demo.py" >$S/with.log 2>&1; echo "rc=$?"; tail -3 $S/with.log | cut -c1-300)
 echo "== demo without the change (expect 0)"
-(cd /tmp && T=$(mktemp -d) && TMPDIR=$T PYTHONPATH=/repo/src timeout 900 /venv/bin/python $wt/_seeded/demo.py >/tmp/demo_without.$$ 2>&1; echo "rc=$?"; rm -rf $T; tail -2 /tmp/demo_without.$$)
-rm -f /tmp/demo_with.$$ /tmp/demo_without.$$
-for id in $pid "$@"; do
-  echo "== ./check $id --tier quick against the changed tree"
-  PYGOM_SRC=$wt/src ./check $id --tier quick 2>&1 | grep -E "^(HELD|VIOLATION|INCONCLUSIVE|KNOWN|  lane=)" | head -4 | cut -c1-400
+(cd /tmp && TMPDIR=$S/tmp PYTHONPATH=/repo/src timeout 1200 /venv/bin/python "$d/demo.py" >$S/without.log 2>&1; echo "rc=$?"; tail -2 $S/without.log | cut -c1-300)
+for id in "$@"; do
+  echo "== ./check $id --tier ${TIER:-quick} against the changed tree"
+  PYGOM_SRC=$S/tree/src ./check $id --tier ${TIER:-quick} 2>&1 | grep -E "^(HELD|VIOLATION|INCONCLUSIVE|KNOWN|  lane=)" | head -4 | cut -c1-500
 done
